@@ -299,7 +299,62 @@ def c10_check(pid, tier, seed, replay=None):
         cleanup(wd)
 
 
+def composed_check(fam_pid, parts, assumptions, world=False):
+    """OP-family histories (rules with the property's prefix) + decision tables."""
+    def chk(pid, tier, seed, replay=None):
+        import opfamily
+        t0 = time.time()
+        wd = workdir(pid)
+        try:
+            if tier == "replay":
+                if os.path.exists(os.path.join(replay, "trace.ndjson")):
+                    return opfamily.op_replay(pid, wd, replay, opfamily.FAMILY[pid])
+                tlc(wd, "OPEmitWorld.tla", cfg="OPEmitWorld.cfg", workers=1, timeout=120)
+                return table_replay(pid, wd, replay, [(p["module"], p["sub"], p["prefixes"]) for p in parts])
+            part = opfamily.op_part(pid, tier, seed, wd, opfamily.FAMILY[pid])
+            tbs, viols = [], []
+            for p in parts:
+                tb = table_run(pid, p["module"], p["sub"], tier, seed, wd, p["prefixes"], p["sig"], need=p.get("need"), label=p.get("label"),
+                               harness_args=["-world", "world.json"] if world else ())
+                for k in p.get("required", ()):
+                    if not tb["coverage"].get(k):
+                        raise Inconclusive(f"vacuous table run ({p['module']}): no observation {k}; have {sorted(tb['coverage'])[:40]}")
+                tbs.append(tb)
+                viols += tb["viols"]
+            new, known = report(pid, viols, lambda v: v["signature"],
+                                lambda v: dict(rule=v["rule"], module=v["module"], id=v["id"], case=v["case"], observed=v["observed"]),
+                                wd, [], seed, tier, extra_save=write_cases)
+            merge_evidence(pid, tier, seed, t0, part["coverage"], tbs, part["new"] + new, part["known"] + known, part["assumptions"] + assumptions)
+            return 1 if (part["new"] + new) else 0
+        finally:
+            cleanup(wd)
+    return chk
+
+
+def c09_sig(o):
+    c = o["c"]
+    k = c["kind"]
+    if k == "http":
+        return f"http:{c['router']}:{c['ep']}:{c['method']}:{c['mal']}:{c['grant']}:{c['flags']}"
+    if k == "verify":
+        return f"verify:{c['fn']}:{c['payload']}:{c['segs']}"
+    if k == "decode":
+        return f"decode:{c['t']}:{c['field']}:{c['form']}"
+    return f"client:{c['helper']}:{c['status']}:{c['body']}"
+
+
+def c09_need(o):
+    return [f"{o['c']['kind']}:{o['o']['class']}"]
+
+
 CHECKS = {
+    "C09": composed_check("C09",
+        [dict(module="Handler", sub="tbl-handler", prefixes=("C09.",), sig=c09_sig, need=c09_need, label="malformed-input sweep",
+              required=["http:response", "verify:error", "verify:value", "decode:error", "decode:value", "client:error", "client:value"])],
+        ["input space covered per malformation CLASS (one concrete member per class); byte-level universality is not claimed (DESIGN.md §4)",
+         "observed: recover() around ServeHTTP / each library call, a ResponseWriter counting WriteHeader calls and recording the storage-call count at the first write",
+         "client helpers run against a RoundTripper answering every request with the case's status and body (after a usable discovery document where construction needs one)"],
+        world=True),
     "C10": c10_check,
     "C12": simple_table_check(
         [dict(module="Codec", sub="tbl-codec", prefixes=("C12.",), sig=c12_sig, need=c12_need, label="codec table",
@@ -312,7 +367,7 @@ CHECKS = {
          "name cannot round-trip by construction)",
          "sealing: observed on six plaintext classes x three key relations through crypto.EncryptAES/DecryptAES and op.NewAESCrypto; confidentiality of AES-CFB is not claimed; "
          "the empty plaintext is exempt from 'only under the same key'"]),
-    "C11": simple_table_check(
+    "C11": composed_check("C11",
         [dict(module="AuthResponse", sub="tbl-authresp", prefixes=("C11.",), sig=c11_sig, need=c11_need, label="authorization response table",
               required=["P:response:query", "P:response:fragment", "P:response:form", "L:response:query", "L:response:fragment", "L:response:form",
                         "L:refused:none", "kind:code", "kind:tokens", "kind:idtoken", "kind:errCallback", "kind:errAuthorize"])],
